@@ -172,3 +172,37 @@ Proof.
     apply add_cancel; [ exact F3 | exact FP | rewrite E3, EQ2; ring ]. }
   split; [ exact Z | unfold inverseF; rewrite Z; reflexivity ].
 Qed.
+
+(* ---- a zero column ---- *)
+Lemma mul_zero_l_is_zero (z b : f64) : is_finite b = true -> is_zero64 z = true -> is_zero64 (mul64 z b) = true.
+Proof. destruct z; try discriminate. destruct b; try discriminate; intros; reflexivity. Qed.
+Lemma sub_zeros_is_zero (p q : f64) : is_zero64 p = true -> is_zero64 q = true -> is_zero64 (sub64 p q) = true.
+Proof. destruct p as [sp| | |]; try discriminate. destruct q as [sq| | |]; try discriminate. intros _ _. destruct sp, sq; reflexivity. Qed.
+Definition zeroV (z : vecF) : Prop := is_zero64 (v0 z) = true /\ is_zero64 (v1 z) = true /\ is_zero64 (v2 z) = true.
+Ltac zero_tac :=
+  repeat first [ assumption
+               | apply add_zeros_is_zero | apply neg_zero_is_zero | apply sub_zeros_is_zero
+               | (apply mul_zero_is_zero; [ assumption | ]) | (apply mul_zero_l_is_zero; [ assumption | ])
+               | (apply mul_zero_l_is_zero; [ | assumption ]) | (apply mul_zero_is_zero; [ | assumption ]) ].
+(* a zero column in any position: the float64 determinant is a zero and Inverse panics, for finite other columns
+   whose one surviving 2x2 minor is finite *)
+Theorem det_zero_column_float (z a b : vecF) :
+  let X := sub64 (mul64 (v1 a) (v2 b)) (mul64 (v1 b) (v2 a)) in
+  zeroV z -> finV a -> finV b -> is_finite X = true ->
+  (is_zero64 (detF (M z a b)) = true /\ inverseF (M z a b) = None) /\
+  (is_zero64 (detF (M a z b)) = true /\ inverseF (M a z b) = None) /\
+  (is_zero64 (detF (M a b z)) = true /\ inverseF (M a b z) = None).
+Proof.
+  intros X (Z0 & Z1 & Z2) (A0 & A1 & A2) (B0 & B1 & B2) FX.
+  assert (FN : is_finite (neg64 X) = true) by (unfold neg64; rewrite is_finite_Bopp; exact FX).
+  assert (H1 : is_zero64 (detF (M z a b)) = true).
+  { unfold detF, detG, adjG. cbn [v0 v1 v2 c0 c1 c2]. fold X. zero_tac. }
+  assert (H2 : is_zero64 (detF (M a z b)) = true).
+  { unfold detF, detG, adjG. cbn [v0 v1 v2 c0 c1 c2]. fold X. zero_tac. }
+  assert (H3 : is_zero64 (detF (M a b z)) = true).
+  { unfold detF, detG, adjG. cbn [v0 v1 v2 c0 c1 c2]. fold X. zero_tac. }
+  unfold inverseF. rewrite H1, H2, H3. repeat split.
+Qed.
+
+Example zero_column_premises : zeroV (V (f64_of_bits 0) (f64_of_bits 0) (f64_of_bits 0)) /\ finV (c0 identF) /\ finV (c1 identF).
+Proof. repeat split. Qed.
